@@ -252,6 +252,12 @@ def run_batch(case):
             checks += 1
             if err:
                 return Result(False, key=f'C05:batch:{err[0]}', detail=err[1])
+    except TypeError as e:
+        if mode == 'exact' and not case.get('_fallback'):
+            res = run_batch(dict(case, mode='float', _fallback=True))   # the float twin decides (see DESIGN 2.3)
+            res.labels = list(res.labels) + ['exact_arithmetic_unsupported']
+            return res
+        return Result(False, key='C05:batch:exception:TypeError', detail=f'{how}: {e!r}')
     except Exception as e:
         return Result(False, key=f'C05:batch:exception:{type(e).__name__}', detail=f'{how}: {e!r}')
     labels = [how, mode, f'd={d}', f'n={len(xs)}']
@@ -289,9 +295,12 @@ class IntervalSim:
         self.prev = dict(self.ex.importance_values)
         self.cmp = refx.Cmp(self.mode)
         self.saw_forced_offbeat = self.saw_skip = self.saw_slide = False
+        self.unsupported = False
 
     def apply(self, op):
         _k, xv, yv, force, upd, n_inner = op
+        if self.unsupported:
+            return None
         ordinal = self.calls + 1
         recompute = force or ordinal % self.cfg['interval'] == 0
         if recompute and not upd and not self.window:
@@ -307,6 +316,11 @@ class IntervalSim:
         nb = len(self.model.batch_calls)
         try:
             ret = self.ex.explain_one(x, y, **kw)
+        except TypeError as e:
+            if self.mode == 'exact':
+                self.unsupported = True
+                return None
+            return 'C05:interval:exception:TypeError', f'call {ordinal}: {e!r}'
         except Exception as e:
             return f'C05:interval:exception:{type(e).__name__}', f'call {ordinal}: {e!r}'
         self.calls += 1
